@@ -724,6 +724,11 @@ where
                                     { crate::verif::hit(crate::verif::Point::LcMergeUnbuffered); }
                                     prev_lc.merge(lc2);
                                     msg.lifecycle = prev_lc.id;
+                                    if !buffered_lcs.contains(&lc2.id) {
+                                        // lc2 was confirmed and by that published already. It's not valid any
+                                        // longer so we remove it. (gets visible with the next refresh)
+                                        lcs_w.empty(lc2.id);
+                                    }
                                     let mut moved_msgs = 1;
                                     // and now update the buffered msgs:
                                     {
